@@ -163,6 +163,8 @@ def _ownership_oracle(rec, ids, V, b, out):
             evs.append((e.end_seq, "deliver", e))
         elif e.op in ("reject", "requeue") and e.id in ids:
             evs.append((e.seq, "release-begin", e))  # the effect may be visible before the call returns
+            if e.op == "reject" and e.end_seq is not None:
+                evs.append((e.end_seq, "reject-end", e))
         elif e.op == "ack" and e.depth == 0 and e.id in ids:
             evs.append((e.seq, "ack-begin", e))
         elif e.op == "finish":
@@ -176,6 +178,8 @@ def _ownership_oracle(rec, ids, V, b, out):
     overlaps = 0
     for _, kind, e in evs:
         if kind == "deliver":
+            if e.id in tainted:
+                continue
             if e.id in gone:
                 if e.id not in tainted:  # a message that already exists twice is reported once
                     V.append(violation("delivered-after-ack", f"C14/{b}/delivered-after-ack", id=e.id, to=e.who))
@@ -196,7 +200,16 @@ def _ownership_oracle(rec, ids, V, b, out):
             holder[e.id] = e.who
             deliver_of[e.id] = e
         elif kind == "release-begin":
-            holder.pop(e.id, None)
+            if e.id not in tainted:
+                holder.pop(e.id, None)
+        elif kind == "reject-end":
+            # known in-memory finding (see the double-delivery branch): a reject() that was in flight while its message
+            # was handed back by finish() and delivered to a new holder has taken it away from that holder
+            d = deliver_of.get(e.id)
+            if b == "mem" and d is not None and e.seq < d.end_seq < e.end_seq and e.id not in tainted and e.outcome == "returned":
+                V.append(violation("double-delivery", f"C14/{b}/double-delivery/late-reject-after-own-finish-took-it-from-new-holder",
+                                   id=e.id, holder=d.who))
+                tainted.add(e.id)
         elif kind == "ack-begin":
             holder.pop(e.id, None)
             gone.add(e.id)
